@@ -32,13 +32,14 @@ func (s subSpec) String() string {
 }
 
 type spec struct {
-	Cfg   hx.GCfg
-	Pubs  int
-	Msgs  int
-	Subs  []subSpec
-	C     int
-	Decoy bool // a second topic with its own subscription and message
-	Batch bool // a publisher hands all its messages to one Publish call
+	Cfg       hx.GCfg
+	Pubs      int
+	Msgs      int
+	Subs      []subSpec
+	C         int
+	Decoy     bool // a second topic with its own subscription and message
+	Batch     bool // a publisher hands all its messages to one Publish call
+	EmptyMeta bool // the published messages carry no metadata (subscribers that edit their copy then add the first keys)
 }
 
 func (sp spec) name() string {
@@ -51,6 +52,9 @@ func (sp spec) name() string {
 	}
 	if sp.Batch {
 		n += "/batch"
+	}
+	if sp.EmptyMeta {
+		n += "/no-metadata"
 	}
 	return n
 }
@@ -143,12 +147,15 @@ func body(sp spec) {
 	}
 	decoy := hx.Msg("decoy")
 	if sp.Decoy {
-		origs["decoy"], snaps["decoy"] = decoy, decoy.Copy()
+		origs["decoy"], snaps["decoy"] = decoy, hx.Clone(decoy)
 	}
 	for p := 0; p < sp.Pubs; p++ {
 		for i := 0; i < sp.Msgs; i++ {
 			m := hx.Msg(fmt.Sprintf("p%dm%d", p, i))
-			origs[m.UUID], snaps[m.UUID] = m, m.Copy()
+			if sp.EmptyMeta {
+				m = message.NewMessage(m.UUID, m.Payload) // no metadata at all
+			}
+			origs[m.UUID], snaps[m.UUID] = m, hx.Clone(m)
 		}
 	}
 	for s, spc := range sp.Subs {
@@ -198,7 +205,7 @@ func body(sp spec) {
 				for _, u := range us {
 					origs[u].Payload = []byte("recycled by the publisher")
 					origs[u].Metadata.Set("recycled", "yes")
-					snapsAfter[u] = origs[u].Copy()
+					snapsAfter[u] = hx.Clone(origs[u])
 					pubDone[u] = true
 				}
 				return
@@ -216,7 +223,7 @@ func body(sp spec) {
 				// subscribers receive (now or on a later redelivery) is what was published
 				origs[u].Payload = []byte("recycled by the publisher")
 				origs[u].Metadata.Set("recycled", "yes")
-				snapsAfter[u] = origs[u].Copy()
+				snapsAfter[u] = hx.Clone(origs[u])
 				pubDone[u] = true
 			}
 		}()
@@ -375,6 +382,8 @@ func init() {
 		add(reg.Quick, 20, spec{Cfg: cfg, Pubs: 1, Msgs: 1, Subs: []subSpec{{Nacks: 1}, {Concurrent: true, Mutate: true}}, C: 2}, -1)
 		add(reg.Quick, 20, spec{Cfg: cfg, Pubs: 2, Msgs: 1, Subs: []subSpec{{Nacks: 1, Mutate: true}}, C: 2}, -1)
 		add(reg.Quick, 20, spec{Cfg: cfg, Pubs: 1, Msgs: 1, Subs: []subSpec{{Nacks: 0}}, C: 2, Decoy: true}, -1)
+		add(reg.Quick, 2, spec{Cfg: cfg, Pubs: 1, Msgs: 1, EmptyMeta: true, Subs: []subSpec{{Nacks: 1, Mutate: true}}, C: -1}, -1)
+		add(reg.Quick, 10, spec{Cfg: cfg, Pubs: 1, Msgs: 1, EmptyMeta: true, Subs: []subSpec{{Nacks: 0, Mutate: true}, {Nacks: 1, Mutate: true}}, C: -1}, -1)
 		cb := 1 // two preemptions only where the blocking publisher keeps the space small
 		if cfg.Blocking {
 			cb = 2
